@@ -78,8 +78,8 @@ namespace Dc4bcVerif.Model
 open Dc4bcVerif.Gen
 
 /-- does the pool of the code under verification register terminal states? (`false` = the
-tree as pinned; flipped when the C19 repair landed) -/
-def registerFinStates : Bool := false
+tree as pinned; `true` since the C19 repair "fix: keep rounds in finish states restorable") -/
+def registerFinStates : Bool := true
 
 def poolState (s : St) : Option MachineId := poolStateWith registerFinStates s
 
